@@ -105,6 +105,30 @@ def float_pass(ctx, n, rng):
         ctx.violation("monitor", "reinflate(compress(M)) != M", {"n": n, "v_hex": [float(x).hex() for x in v]})
 
 
+def interleaving_pass(ctx, n, rng):
+    """both round trips while another caller of the same process runs the same functions on OTHER data of the same size at
+    every line boundary inside the library (a second thread scheduled there): the answers must be those for the own data"""
+    from fast_ticc import matrix_compression as mc
+    m = n * (n + 1) // 2
+    v = rng.normal(size=m)
+    v2 = rng.normal(size=m) + 100.0
+    want_M = np.zeros((n, n))
+    want_M[np.triu_indices(n)] = v
+    want_M = want_M + want_M.T - np.diag(np.diag(want_M))
+    def intruder():
+        mc.compress_matrix(mc.reinflate_matrix(v2))
+    got_M, pts = core.interleaved_call(mc.reinflate_matrix, (v,), intruder, ("matrix_compression",))
+    got_v, pts2 = core.interleaved_call(mc.compress_matrix, (want_M,), intruder, ("matrix_compression",))
+    ctx.count("interleaving-points", pts + pts2)
+    if got_M.shape != want_M.shape or not np.array_equal(got_M, want_M):
+        ctx.violation("monitor", "reinflate_matrix returns another caller's matrix when a second call for the same size (n = %d) runs between two "
+                      "of its lines (%d of %d entries differ)" % (n, int(np.sum(got_M != want_M)) if got_M.shape == want_M.shape else -1, n * n),
+                      {"n": n, "what": "interleaving", "v_hex": [float(x).hex() for x in v[:20]]})
+    if got_v.shape != v.shape or not np.array_equal(got_v, v):
+        ctx.violation("monitor", "compress_matrix returns another caller's vector when a second call for the same size (n = %d) runs between two of its lines" % n,
+                      {"n": n, "what": "interleaving"})
+
+
 def definition_pass(ctx, n):
     """the statement itself on matrices with pairwise distinct entries, for one size n (independent of the model):
     compress = row-major upper triangle, reinflate = the symmetric matrix with that upper triangle, both round trips"""
@@ -180,6 +204,10 @@ def run(ctx):
                     with ctx.guard("compress / reinflate", {"n": n, "phase": "definition pass"}):
                         definition_pass(ctx, n)
                     ctx.count("n-definition")
+                for n in (1, 2, 3, 7, 40, 129, 150):
+                    with ctx.guard("compress / reinflate", {"n": n, "phase": "interleaving pass"}):
+                        interleaving_pass(ctx, n, rng)
+                    ctx.count("n-interleaving")
             for n in ns:
                 for key, fn in (("triu", impl_triu), ("compress", impl_compress), ("reinflate", impl_reinflate)):
                     val = -1
